@@ -1,4 +1,4 @@
-\* C16 generator, thorough: all 5400 configurations, secret same / corrupted
+\* C16 generator, thorough: all 7560 configurations, secret same / corrupted
 SPECIFICATION GenSpec
 CONSTANTS
   Tier = "all"
